@@ -1,3 +1,1064 @@
+/-
+  Lemmas/ConcCall.lean — invariants of the small-step model of whole calls racing the open ⇄ closed transitions
+  (CircuitModel/Conc/Call.lean), used by Props/C01Conc.lean.  Structure:
+    * `ccall_run_inv` / `ccall_run_append`: generic facts about schedules;
+    * `ccall_tstep_*`: one step of the embedded transition (Conc/Trans);
+    * `ccall_step_*`: one step of a call thread;
+    * `ccall_Thr` / `ccall_Inv`: what is known of each thread at each program point (events, admission);
+    * `ccall_Hold`: the holder of transitionMu is inside its critical section (no deadlock);
+    * `ccall_NC`: nothing can close the circuit (flag monotone); `ccall_OT`: returned OpenCircuit;
+    * `ccall_Shed`: a thread that only sheds.
+-/
 import CircuitModel.Conc.Call
 namespace CM.Conc.Call
+open CM.Conc
+
+/-! ### generic -/
+
+theorem ccall_run_inv {σ loc : Type} (S : Sys σ loc) (I : Config σ loc → Prop)
+    (hstep : ∀ (c : Config σ loc) (i : Nat) (l : loc) (s' : σ) (l' : loc), I c → c.locals[i]? = some l →
+      S.step i c.shared l = some (s', l') → I { shared := s', locals := c.locals.set i l' })
+    (c : Config σ loc) (h : I c) (sched : List Nat) : I (run S c sched) := by
+  induction sched generalizing c with
+  | nil => exact h
+  | cons i rest ih =>
+    simp only [run]
+    split
+    · exact ih c h
+    · rename_i l hl
+      split
+      · exact ih c h
+      · rename_i s' l' hs
+        exact ih _ (hstep c i l s' l' h hl hs)
+
+theorem ccall_run_append {σ loc : Type} (S : Sys σ loc) (c : Config σ loc) (s1 s2 : List Nat) :
+    run S c (s1 ++ s2) = run S (run S c s1) s2 := by
+  induction s1 generalizing c with
+  | nil => rfl
+  | cons i rest ih =>
+    simp only [List.cons_append, run]
+    split
+    · exact ih c
+    · split
+      · exact ih c
+      · exact ih _
+
+/-- a per-thread property after one thread was replaced -/
+theorem ccall_set_forall {α : Type} (P Q : Nat → α → Prop) (ls : List α) (i : Nat) (l' : α)
+    (h : ∀ j l, ls[j]? = some l → P j l) (hi : Q i l') (hne : ∀ j l, j ≠ i → P j l → Q j l) :
+    ∀ j l, (ls.set i l')[j]? = some l → Q j l := by
+  intro j l hj
+  rw [List.getElem?_set] at hj
+  split at hj
+  · rename_i hij
+    subst hij
+    split at hj
+    · simp only [Option.some.injEq] at hj; subst hj; exact hi
+    · simp at hj
+  · rename_i hij
+    exact hne j l (fun e => hij e.symm) (h j l hj)
+
+/-- keys are unique in a list whose keys have no duplicates -/
+theorem ccall_nodup_key {α β : Type} (l : List (α × β)) (h : (l.map (·.1)).Nodup) (a : α) (b b' : β)
+    (h1 : (a, b) ∈ l) (h2 : (a, b') ∈ l) : b = b' := by
+  induction l with
+  | nil => simp at h1
+  | cons x r ih =>
+    simp only [List.map_cons, List.nodup_cons, List.mem_map, not_exists, not_and] at h
+    simp only [List.mem_cons] at h1 h2
+    rcases h1 with h1 | h1 <;> rcases h2 with h2 | h2
+    · rw [← h1] at h2; cases h2; rfl
+    · exact absurd (by rw [← h1]) (h.1 _ h2)
+    · exact absurd (by rw [← h2]) (h.1 _ h1)
+    · exact ih h.2 h1 h2
+
+/-! ### one step of the embedded transition -/
+
+theorem ccall_tstep_static (i : Nat) (t t' : Trans.Shared) (tl tl' : Trans.Local)
+    (h : Trans.step i t tl = some (t', tl')) :
+    tl'.job = tl.job ∧ t'.forceOpen = t.forceOpen ∧ t'.forcedClosed = t.forcedClosed := by
+  obtain ⟨job, pc⟩ := tl
+  cases pc <;> cases job <;> simp only [Trans.step] at h
+  all_goals (try split at h)
+  all_goals (try split at h)
+  all_goals (try simp only [Option.some.injEq, Prod.mk.injEq, reduceCtorEq] at h)
+  all_goals (try (obtain ⟨rfl, rfl⟩ := h))
+  all_goals simp_all
+
+theorem ccall_tstep_holder (i : Nat) (t t' : Trans.Shared) (tl tl' : Trans.Local)
+    (h : Trans.step i t tl = some (t', tl')) :
+    (tl.pc = .start ∧ t.holder = none ∧ t'.holder = some i ∧ tl'.pc ≠ .start ∧ tl'.pc ≠ .done) ∨
+    (tl.pc ≠ .start ∧ t'.holder = t.holder ∧ tl'.pc ≠ .start ∧ tl'.pc ≠ .done) ∨
+    t'.holder = none := by
+  obtain ⟨job, pc⟩ := tl
+  cases pc <;> cases job <;> simp only [Trans.step] at h
+  all_goals (try split at h)
+  all_goals (try split at h)
+  all_goals (try simp only [Option.some.injEq, Prod.mk.injEq, reduceCtorEq] at h)
+  all_goals (try (obtain ⟨rfl, rfl⟩ := h))
+  all_goals simp_all
+
+/-- the flag changes only at `store` -/
+theorem ccall_tstep_isOpen (i : Nat) (t t' : Trans.Shared) (tl tl' : Trans.Local)
+    (h : Trans.step i t tl = some (t', tl')) :
+    t'.isOpen = t.isOpen ∨ (tl.pc = .store ∧ tl.job = .open ∧ t'.isOpen = true) ∨
+    (tl.pc = .store ∧ ∃ f a, tl.job = .close f a) := by
+  obtain ⟨job, pc⟩ := tl
+  cases pc <;> cases job <;> simp only [Trans.step] at h
+  all_goals (try split at h)
+  all_goals (try split at h)
+  all_goals (try simp only [Option.some.injEq, Prod.mk.injEq, reduceCtorEq] at h)
+  all_goals (try (obtain ⟨rfl, rfl⟩ := h))
+  all_goals simp_all
+
+/-- a closing attempt that decides "no" never notifies nor stores -/
+theorem ccall_tstep_noclose (i : Nat) (t t' : Trans.Shared) (tl tl' : Trans.Local)
+    (h : Trans.step i t tl = some (t', tl')) (hj : tl.job = .close false false)
+    (h1 : tl.pc ≠ .notify) (h2 : tl.pc ≠ .store) : tl'.pc ≠ .notify ∧ tl'.pc ≠ .store := by
+  obtain ⟨job, pc⟩ := tl
+  simp only at hj; subst hj
+  cases pc <;> simp only [Trans.step] at h
+  all_goals (try split at h)
+  all_goals (try split at h)
+  all_goals (try simp only [Option.some.injEq, Prod.mk.injEq, reduceCtorEq] at h)
+  all_goals (try (obtain ⟨rfl, rfl⟩ := h))
+  all_goals simp_all
+
+/-- an opening attempt without ForcedClosed: it unlocks only once the circuit is open -/
+theorem ccall_tstep_opening (i : Nat) (t t' : Trans.Shared) (tl tl' : Trans.Local)
+    (h : Trans.step i t tl = some (t', tl')) (hj : tl.job = .open) (hfc : t.forcedClosed = false)
+    (h1 : tl.pc ≠ .guard2) (h2 : tl.pc ≠ .decide) (h3 : tl.pc = .unlock → (t.isOpen = true ∨ t.forceOpen = true)) :
+    tl'.pc ≠ .guard2 ∧ tl'.pc ≠ .decide ∧
+    ((tl'.pc = .unlock ∨ tl'.pc = .done) → (t'.isOpen = true ∨ t'.forceOpen = true)) := by
+  obtain ⟨job, pc⟩ := tl
+  simp only at hj; subst hj
+  cases pc <;> simp only [Trans.step] at h
+  all_goals (try split at h)
+  all_goals (try split at h)
+  all_goals (try simp only [Option.some.injEq, Prod.mk.injEq, reduceCtorEq] at h)
+  all_goals (try (obtain ⟨rfl, rfl⟩ := h))
+  all_goals simp_all
+
+theorem ccall_tstep_mid_isSome (i : Nat) (t : Trans.Shared) (tl : Trans.Local)
+    (h1 : tl.pc ≠ .start) (h2 : tl.pc ≠ .done) : (Trans.step i t tl).isSome = true := by
+  obtain ⟨job, pc⟩ := tl
+  cases pc <;> cases job <;> simp only [Trans.step] <;> (try split) <;> simp_all
+
+theorem ccall_tstep_start_isSome (i : Nat) (t : Trans.Shared) (tl : Trans.Local)
+    (h1 : tl.pc = .start) (h2 : t.holder = none) : (Trans.step i t tl).isSome = true := by
+  obtain ⟨job, pc⟩ := tl
+  simp only at h1; subst h1
+  simp [Trans.step, h2]
+
+/-! ### one step of a thread -/
+
+/-- a step inside the transition -/
+theorem ccall_step_trans (i : Nat) (s s' : Shared) (l l' : Local) (tl : Trans.Local) (hpc : l.pc = .trans tl)
+    (h : step i s l = some (s', l')) :
+    (tl.pc = .done ∧ s' = s ∧ l' = { l with pc := .done }) ∨
+    (tl.pc ≠ .done ∧ ∃ t' tl', Trans.step i s.t tl = some (t', tl') ∧ s' = { s with t := t' } ∧
+      l' = { l with pc := if tl'.pc == .done then .done else .trans tl' }) := by
+  obtain ⟨job, pc, sw⟩ := l
+  simp only at hpc; subst hpc
+  simp only [step] at h
+  split at h
+  · rename_i hd
+    simp only [Option.some.injEq, Prod.mk.injEq] at h
+    exact Or.inl ⟨hd, h.1.symm, h.2.symm⟩
+  · rename_i hd
+    split at h
+    · rename_i t' tl' ht
+      simp only [Option.some.injEq, Prod.mk.injEq] at h
+      exact Or.inr ⟨hd, t', tl', ht, h.1.symm, h.2.symm⟩
+    · simp at h
+
+/-- a step outside the transition: the transition state is untouched, an event is appended at `shedNow` / `invoke` only -/
+theorem ccall_step_plain (i : Nat) (s s' : Shared) (l l' : Local) (hpc : ∀ tl, l.pc ≠ .trans tl)
+    (h : step i s l = some (s', l')) :
+    s'.t = s.t ∧ l'.job = l.job ∧
+    ((s'.events = s.events ∧ l.pc ≠ .shedNow ∧ l.pc ≠ .invoke) ∨
+     (l.pc = .shedNow ∧ s'.events = s.events ++ [(i, .shed)] ∧ l'.pc = .done) ∨
+     (l.pc = .invoke ∧ s'.events = s.events ++ [(i, .ran)] ∧ l'.pc = .pFO)) := by
+  obtain ⟨job, pc, sw⟩ := l
+  cases pc <;> simp only [step] at h
+  all_goals (try split at h)
+  all_goals (try split at h)
+  all_goals (try split at h)
+  all_goals (try simp only [Option.some.injEq, Prod.mk.injEq, reduceCtorEq] at h)
+  all_goals (try (obtain ⟨rfl, rfl⟩ := h))
+  all_goals simp_all
+
+theorem ccall_step_static (i : Nat) (s s' : Shared) (l l' : Local) (h : step i s l = some (s', l')) :
+    l'.job = l.job ∧ s'.t.forceOpen = s.t.forceOpen ∧ s'.t.forcedClosed = s.t.forcedClosed := by
+  by_cases hpc : ∃ tl, l.pc = .trans tl
+  · obtain ⟨tl, hpc⟩ := hpc
+    rcases ccall_step_trans i s s' l l' tl hpc h with ⟨_, rfl, rfl⟩ | ⟨_, t', tl', ht, rfl, rfl⟩
+    · simp
+    · have := ccall_tstep_static _ _ _ _ _ ht
+      simp [this]
+  · have := ccall_step_plain i s s' l l' (fun tl e => hpc ⟨tl, e⟩) h
+    simp [this.1, this.2.1]
+
+/-- events are only appended, by the stepping thread, at `shedNow` / `invoke` -/
+theorem ccall_step_events (i : Nat) (s s' : Shared) (l l' : Local) (h : step i s l = some (s', l')) :
+    s'.events = s.events ∨
+    (l.pc = .shedNow ∧ s'.events = s.events ++ [(i, .shed)] ∧ l'.pc = .done ∧ s'.t = s.t) ∨
+    (l.pc = .invoke ∧ s'.events = s.events ++ [(i, .ran)] ∧ l'.pc = .pFO ∧ s'.t = s.t) := by
+  by_cases hpc : ∃ tl, l.pc = .trans tl
+  · obtain ⟨tl, hpc⟩ := hpc
+    rcases ccall_step_trans i s s' l l' tl hpc h with ⟨_, rfl, rfl⟩ | ⟨_, t', tl', ht, rfl, rfl⟩ <;> simp
+  · have := ccall_step_plain i s s' l l' (fun tl e => hpc ⟨tl, e⟩) h
+    rcases this.2.2 with h1 | h1 | h1
+    · exact Or.inl h1.1
+    · exact Or.inr (Or.inl ⟨h1.1, h1.2.1, h1.2.2, this.1⟩)
+    · exact Or.inr (Or.inr ⟨h1.1, h1.2.1, h1.2.2, this.1⟩)
+
+theorem ccall_set_jobs (ls : List Local) (i : Nat) (l l' : Local) (hl : ls[i]? = some l) (hj : l'.job = l.job) :
+    (ls.set i l').map (·.job) = ls.map (·.job) := by
+  apply List.ext_getElem?
+  intro j
+  simp only [List.getElem?_map, List.getElem?_set]
+  split
+  · rename_i hij
+    subst hij
+    split
+    · simp [hl, hj]
+    · rename_i hlt
+      have : ls[i]? = none := by simpa using hlt
+      rw [this] at hl; cases hl
+  · rfl
+
+/-- the override flags and the jobs are static -/
+theorem ccall_run_static (c : Config Shared Local) (sched : List Nat) :
+    (run sys c sched).shared.t.forceOpen = c.shared.t.forceOpen ∧
+    (run sys c sched).shared.t.forcedClosed = c.shared.t.forcedClosed ∧
+    (run sys c sched).locals.map (·.job) = c.locals.map (·.job) := by
+  refine ccall_run_inv sys (fun c' => c'.shared.t.forceOpen = c.shared.t.forceOpen ∧
+    c'.shared.t.forcedClosed = c.shared.t.forcedClosed ∧ c'.locals.map (·.job) = c.locals.map (·.job)) ?_ c
+    ⟨rfl, rfl, rfl⟩ sched
+  intro c' i l s' l' ⟨h1, h2, h3⟩ hl hs
+  have := ccall_step_static i _ _ _ _ hs
+  exact ⟨this.2.1.trans h1, this.2.2.trans h2, (ccall_set_jobs _ _ _ _ hl this.1).trans h3⟩
+
+theorem ccall_init_jobs (fo fc io : Bool) (jobs : List Job) : (init fo fc io jobs).locals.map (·.job) = jobs := by
+  simp [init, List.map_map, Function.comp_def]
+
+/-- the job of a thread of a configuration with the jobs `jobs` -/
+theorem ccall_job_of {c : Config Shared Local} {jobs : List Job} (h : c.locals.map (·.job) = jobs) {i : Nat}
+    {l : Local} (hl : c.locals[i]? = some l) : jobs[i]? = some l.job := by
+  rw [← h, List.getElem?_map, hl]; rfl
+
+theorem ccall_thread_of {c : Config Shared Local} {jobs : List Job} (h : c.locals.map (·.job) = jobs) {i : Nat}
+    {j : Job} (hj : jobs[i]? = some j) : ∃ l, c.locals[i]? = some l ∧ l.job = j := by
+  rw [← h, List.getElem?_map] at hj
+  cases hl : c.locals[i]? with
+  | none => rw [hl] at hj; cases hj
+  | some l => rw [hl] at hj; exact ⟨l, rfl, by simpa using hj⟩
+
+/-! ### what is known of each thread: events and admission -/
+
+/-- the call's own reading admitted it -/
+def ccall_Adm (fo : Bool) (sc : Script) (l : Local) : Prop :=
+  l.sawOpen = some false ∨ (l.sawOpen = some true ∧ sc.allow = true ∧ fo = false)
+
+def ccall_NoEv (s : Shared) (i : Nat) : Prop := ∀ o, (i, o) ∉ s.events
+
+/-- the run function was invoked, after admission -/
+def ccall_Ran (fo : Bool) (s : Shared) (i : Nat) (sc : Script) (l : Local) : Prop :=
+  (i, Outcome.ran) ∈ s.events ∧ sc.prevent = false ∧ ccall_Adm fo sc l
+
+def ccall_Thr (fo : Bool) (s : Shared) (i : Nat) (l : Local) : Prop :=
+  (l.sawOpen = some false → fo = false) ∧
+  match l.job with
+  | .call sc =>
+    (match l.pc with
+     | .aFO => ccall_NoEv s i
+     | .aFC => ccall_NoEv s i ∧ fo = false
+     | .aFlag => ccall_NoEv s i ∧ fo = false
+     | .gFO => ccall_NoEv s i ∧ l.sawOpen = some true
+     | .askAllow => ccall_NoEv s i ∧ l.sawOpen = some true ∧ fo = false
+     | .askPrevent => ccall_NoEv s i ∧ ccall_Adm fo sc l
+     | .invoke => ccall_NoEv s i ∧ sc.prevent = false ∧ ccall_Adm fo sc l
+     | .shedNow => ccall_NoEv s i
+     | .trans tl => ccall_Ran fo s i sc l ∧ (tl.job = .open ∨ tl.job = .close false sc.shouldClose)
+     | .done => (i, Outcome.shed) ∈ s.events ∨ ccall_Ran fo s i sc l
+     | _ => ccall_Ran fo s i sc l)
+  | .open => ccall_NoEv s i ∧ (l.pc = .done ∨ ∃ tl, l.pc = .trans tl ∧ tl.job = .open)
+  | .close => ccall_NoEv s i ∧ (l.pc = .done ∨ ∃ tl, l.pc = .trans tl ∧ tl.job = .close true false)
+
+/-- steps of other threads do not disturb what is known of thread `j` -/
+theorem ccall_Thr_frame (fo : Bool) (s s' : Shared) (j : Nat) (l : Local) (h : ccall_Thr fo s j l)
+    (hmono : ∀ e, e ∈ s.events → e ∈ s'.events) (hrefl : ∀ o, (j, o) ∈ s'.events → (j, o) ∈ s.events) :
+    ccall_Thr fo s' j l := by
+  obtain ⟨job, pc, sw⟩ := l
+  have hno : ccall_NoEv s j → ccall_NoEv s' j := fun hn o ho => hn o (hrefl o ho)
+  have hran : ∀ sc, ccall_Ran fo s j sc ⟨job, pc, sw⟩ → ccall_Ran fo s' j sc ⟨job, pc, sw⟩ :=
+    fun sc hr => ⟨hmono _ hr.1, hr.2⟩
+  refine ⟨h.1, ?_⟩
+  have h2 := h.2
+  cases job with
+  | call sc =>
+    cases pc <;> simp only at h2 ⊢
+    all_goals first
+      | exact hno h2
+      | exact ⟨hno h2.1, h2.2⟩
+      | exact hran sc h2
+      | exact ⟨hran sc h2.1, h2.2⟩
+      | exact h2.imp (hmono _) (hran sc)
+  | «open» => exact ⟨hno h2.1, h2.2⟩
+  | close => exact ⟨hno h2.1, h2.2⟩
+
+theorem ccall_Thr_step_trans (fo : Bool) (i : Nat) (s s' : Shared) (l l' : Local) (tl : Trans.Local)
+    (hpc : l.pc = .trans tl) (h : ccall_Thr fo s i l) (hs : step i s l = some (s', l')) : ccall_Thr fo s' i l' := by
+  obtain ⟨job, pc, sw⟩ := l
+  simp only at hpc; subst hpc
+  rcases ccall_step_trans i s s' _ l' tl rfl hs with ⟨_, rfl, rfl⟩ | ⟨_, t', tl', ht, rfl, rfl⟩
+  · cases job <;> simp_all [ccall_Thr, ccall_Ran, ccall_Adm, ccall_NoEv]
+  · have hj := (ccall_tstep_static _ _ _ _ _ ht).1
+    by_cases hd : tl'.pc = .done
+    · cases job <;> simp_all [ccall_Thr, ccall_Ran, ccall_Adm, ccall_NoEv]
+    · cases job <;> simp_all [ccall_Thr, ccall_Ran, ccall_Adm, ccall_NoEv]
+
+theorem ccall_Thr_step_plain (fo : Bool) (i : Nat) (s s' : Shared) (l l' : Local) (hfo : s.t.forceOpen = fo)
+    (hpc : ∀ tl, l.pc ≠ .trans tl) (h : ccall_Thr fo s i l) (hs : step i s l = some (s', l')) :
+    ccall_Thr fo s' i l' := by
+  obtain ⟨job, pc, sw⟩ := l
+  cases job with
+  | call sc =>
+    cases pc <;> simp only [step] at hs
+    all_goals (try split at hs)
+    all_goals (try split at hs)
+    all_goals (try simp only [Option.some.injEq, Prod.mk.injEq, reduceCtorEq] at hs)
+    all_goals (try (obtain ⟨rfl, rfl⟩ := hs))
+    all_goals simp_all [ccall_Thr, ccall_Ran, ccall_Adm, ccall_NoEv]
+    all_goals exact absurd h.2.2.2 h.1
+  | «open» =>
+    obtain ⟨_, h2⟩ := h
+    rcases h2.2 with h3 | ⟨tl, h3, _⟩
+    · simp only at h3; subst h3; simp [step] at hs
+    · exact absurd h3 (hpc tl)
+  | close =>
+    obtain ⟨_, h2⟩ := h
+    rcases h2.2 with h3 | ⟨tl, h3, _⟩
+    · simp only at h3; subst h3; simp [step] at hs
+    · exact absurd h3 (hpc tl)
+
+theorem ccall_Thr_step (fo : Bool) (i : Nat) (s s' : Shared) (l l' : Local) (hfo : s.t.forceOpen = fo)
+    (h : ccall_Thr fo s i l) (hs : step i s l = some (s', l')) : ccall_Thr fo s' i l' := by
+  by_cases hpc : ∃ tl, l.pc = .trans tl
+  · obtain ⟨tl, hpc⟩ := hpc
+    exact ccall_Thr_step_trans fo i s s' l l' tl hpc h hs
+  · exact ccall_Thr_step_plain fo i s s' l l' hfo (fun tl e => hpc ⟨tl, e⟩) h hs
+
+/-- a thread about to record its outcome has none yet -/
+theorem ccall_Thr_noev (fo : Bool) (i : Nat) (s : Shared) (l : Local) (h : ccall_Thr fo s i l)
+    (hpc : l.pc = .shedNow ∨ l.pc = .invoke) : ccall_NoEv s i := by
+  obtain ⟨job, pc, sw⟩ := l
+  cases job <;> rcases hpc with hpc | hpc <;> simp only at hpc <;> subst hpc <;> simp_all [ccall_Thr]
+
+def ccall_Inv (fo : Bool) (c : Config Shared Local) : Prop :=
+  c.shared.t.forceOpen = fo ∧ (c.shared.events.map (·.1)).Nodup ∧
+  (∀ e ∈ c.shared.events, e.1 < c.locals.length) ∧
+  ∀ j l, c.locals[j]? = some l → ccall_Thr fo c.shared j l
+
+theorem ccall_Inv_step (fo : Bool) (c : Config Shared Local) (i : Nat) (l : Local) (s' : Shared) (l' : Local)
+    (h : ccall_Inv fo c) (hl : c.locals[i]? = some l) (hs : step i c.shared l = some (s', l')) :
+    ccall_Inv fo { shared := s', locals := c.locals.set i l' } := by
+  obtain ⟨h1, h2, h3, h4⟩ := h
+  have hst := ccall_step_static i _ _ _ _ hs
+  have hi := ccall_Thr_step fo i _ _ _ _ h1 (h4 i l hl) hs
+  have hilt : i < c.locals.length := by
+    rcases Nat.lt_or_ge i c.locals.length with h | h
+    · exact h
+    · rw [List.getElem?_eq_none h] at hl; cases hl
+  refine ⟨hst.2.1.trans h1, ?_, ?_, ?_⟩
+  · rcases ccall_step_events i _ _ _ _ hs with he | ⟨hp, he, _⟩ | ⟨hp, he, _⟩
+    · simp only [he]; exact h2
+    · have hn := ccall_Thr_noev fo i _ _ (h4 i l hl) (Or.inl hp)
+      simp only [he, List.map_append, List.map_cons, List.map_nil]
+      rw [List.nodup_append]
+      refine ⟨h2, by simp, ?_⟩
+      intro a ha b hb
+      simp only [List.mem_singleton] at hb
+      subst hb
+      simp only [List.mem_map] at ha
+      obtain ⟨⟨a', o⟩, hm, rfl⟩ := ha
+      intro e; simp only at e; subst e
+      exact hn o hm
+    · have hn := ccall_Thr_noev fo i _ _ (h4 i l hl) (Or.inr hp)
+      simp only [he, List.map_append, List.map_cons, List.map_nil]
+      rw [List.nodup_append]
+      refine ⟨h2, by simp, ?_⟩
+      intro a ha b hb
+      simp only [List.mem_singleton] at hb
+      subst hb
+      simp only [List.mem_map] at ha
+      obtain ⟨⟨a', o⟩, hm, rfl⟩ := ha
+      intro e; simp only at e; subst e
+      exact hn o hm
+  · intro e he
+    simp only [List.length_set]
+    rcases ccall_step_events i _ _ _ _ hs with he' | ⟨_, he', _⟩ | ⟨_, he', _⟩
+    · rw [he'] at he; exact h3 e he
+    · rw [he'] at he
+      simp only [List.mem_append, List.mem_singleton] at he
+      rcases he with he | rfl
+      · exact h3 e he
+      · exact hilt
+    · rw [he'] at he
+      simp only [List.mem_append, List.mem_singleton] at he
+      rcases he with he | rfl
+      · exact h3 e he
+      · exact hilt
+  · refine ccall_set_forall (fun j l => ccall_Thr fo c.shared j l) (fun j l => ccall_Thr fo s' j l) c.locals i l' h4 hi ?_
+    intro j lj hne hj
+    refine ccall_Thr_frame fo _ _ j lj hj ?_ ?_
+    · intro e he
+      rcases ccall_step_events i _ _ _ _ hs with he' | ⟨_, he', _⟩ | ⟨_, he', _⟩ <;> rw [he'] <;> simp [he]
+    · intro o ho
+      rcases ccall_step_events i _ _ _ _ hs with he' | ⟨_, he', _⟩ | ⟨_, he', _⟩ <;> rw [he'] at ho
+      · exact ho
+      · simp only [List.mem_append, List.mem_singleton, Prod.mk.injEq] at ho
+        rcases ho with ho | ⟨e, _⟩
+        · exact ho
+        · exact absurd e hne
+      · simp only [List.mem_append, List.mem_singleton, Prod.mk.injEq] at ho
+        rcases ho with ho | ⟨e, _⟩
+        · exact ho
+        · exact absurd e hne
+
+theorem ccall_Inv_init (fo fc io : Bool) (jobs : List Job) : ccall_Inv fo (init fo fc io jobs) := by
+  refine ⟨rfl, by simp [init], by simp [init], ?_⟩
+  intro j l hl
+  simp only [init, List.getElem?_map] at hl
+  cases hj : jobs[j]? with
+  | none => rw [hj] at hl; cases hl
+  | some job =>
+    rw [hj] at hl
+    simp only [Option.map_some, Option.some.injEq] at hl
+    subst hl
+    cases job <;> simp [ccall_Thr, startPc, ccall_NoEv, init]
+
+theorem ccall_Inv_run (fo : Bool) (c : Config Shared Local) (h : ccall_Inv fo c) (sched : List Nat) :
+    ccall_Inv fo (run sys c sched) :=
+  ccall_run_inv sys (ccall_Inv fo) (fun c i l s' l' h hl hs => ccall_Inv_step fo c i l s' l' h hl hs) c h sched
+
+/-- a recorded invocation belongs to an admitted call -/
+theorem ccall_Thr_ran (fo : Bool) (i : Nat) (s : Shared) (l : Local) (h : ccall_Thr fo s i l)
+    (hnd : (s.events.map (·.1)).Nodup) (hr : (i, Outcome.ran) ∈ s.events) :
+    ∃ sc, l.job = .call sc ∧ sc.prevent = false ∧ ccall_Adm fo sc l := by
+  obtain ⟨job, pc, sw⟩ := l
+  have h2 := h.2
+  cases job with
+  | call sc =>
+    refine ⟨sc, rfl, ?_⟩
+    cases pc <;> simp only at h2
+    all_goals first
+      | exact h2.2
+      | exact h2.1.2
+      | exact absurd hr (h2 _)
+      | exact absurd hr (h2.1 _)
+      | skip
+    rcases h2 with h2 | h2
+    · cases ccall_nodup_key _ hnd i _ _ hr h2
+    · exact h2.2
+  | «open» => exact absurd hr (h2.1 _)
+  | close => exact absurd hr (h2.1 _)
+
+/-- only calls record outcomes -/
+theorem ccall_Thr_ev (fo : Bool) (i : Nat) (s : Shared) (l : Local) (h : ccall_Thr fo s i l) (o : Outcome)
+    (hr : (i, o) ∈ s.events) : ∃ sc, l.job = .call sc := by
+  obtain ⟨job, pc, sw⟩ := l
+  have h2 := h.2
+  cases job with
+  | call sc => exact ⟨sc, rfl⟩
+  | «open» => exact absurd hr (h2.1 _)
+  | close => exact absurd hr (h2.1 _)
+
+/-- a returned call has recorded its outcome -/
+theorem ccall_Thr_done (fo : Bool) (i : Nat) (s : Shared) (l : Local) (h : ccall_Thr fo s i l) (sc : Script)
+    (hj : l.job = .call sc) (hpc : l.pc = .done) : ∃ o, (i, o) ∈ s.events := by
+  obtain ⟨job, pc, sw⟩ := l
+  simp only at hj hpc; subst hj; subst hpc
+  rcases h.2 with h2 | h2
+  · exact ⟨_, h2⟩
+  · exact ⟨_, h2.1⟩
+
+theorem ccall_Inv_thread (fo : Bool) (c : Config Shared Local) (h : ccall_Inv fo c) (i : Nat) (o : Outcome)
+    (hr : (i, o) ∈ c.shared.events) : ∃ l, c.locals[i]? = some l ∧ ccall_Thr fo c.shared i l := by
+  have hlt := h.2.2.1 _ hr
+  exact ⟨c.locals[i], List.getElem?_eq_getElem hlt, h.2.2.2 i _ (List.getElem?_eq_getElem hlt)⟩
+
+theorem ccall_outcomeOf_isSome (c : Config Shared Local) (i : Nat) (o : Outcome) (h : (i, o) ∈ c.shared.events) :
+    (outcomeOf c i).isSome = true := by
+  simp only [outcomeOf, Option.isSome_map, List.find?_isSome]
+  exact ⟨(i, o), h, by simp⟩
+
+/-! ### transitionMu: its holder is inside the critical section -/
+
+theorem ccall_lt_of_getElem? {α : Type} {ls : List α} {i : Nat} {l : α} (hl : ls[i]? = some l) : i < ls.length := by
+  rcases Nat.lt_or_ge i ls.length with h | h
+  · exact h
+  · rw [List.getElem?_eq_none h] at hl; cases hl
+
+def ccall_Hold (c : Config Shared Local) : Prop :=
+  ∀ h, c.shared.t.holder = some h →
+    ∃ l tl, c.locals[h]? = some l ∧ l.pc = .trans tl ∧ tl.pc ≠ .start ∧ tl.pc ≠ .done
+
+theorem ccall_Hold_step (c : Config Shared Local) (i : Nat) (l : Local) (s' : Shared) (l' : Local)
+    (h : ccall_Hold c) (hl : c.locals[i]? = some l) (hs : step i c.shared l = some (s', l')) :
+    ccall_Hold { shared := s', locals := c.locals.set i l' } := by
+  have hilt := ccall_lt_of_getElem? hl
+  intro k hk
+  simp only at hk ⊢
+  by_cases hpc : ∃ tl, l.pc = .trans tl
+  · obtain ⟨tl, hpc⟩ := hpc
+    rcases ccall_step_trans i _ s' l l' tl hpc hs with ⟨hd, rfl, rfl⟩ | ⟨hd, t', tl', ht, rfl, rfl⟩
+    · obtain ⟨lk, tlk, hlk, hpk, hk1, hk2⟩ := h k hk
+      by_cases hki : k = i
+      · subst hki
+        rw [hl] at hlk; cases hlk
+        rw [hpc] at hpk; cases hpk
+        exact absurd hd hk2
+      · exact ⟨lk, tlk, by rw [List.getElem?_set_ne (fun e => hki e.symm)]; exact hlk, hpk, hk1, hk2⟩
+    · simp only at hk
+      rcases ccall_tstep_holder _ _ _ _ _ ht with ⟨_, _, hh, h1, h2⟩ | ⟨_, hh, h1, h2⟩ | hh
+      · rw [hh] at hk; cases hk
+        refine ⟨_, tl', List.getElem?_set_self hilt, ?_, h1, h2⟩
+        simp [h2]
+      · rw [hh] at hk
+        obtain ⟨lk, tlk, hlk, hpk, hk1, hk2⟩ := h k hk
+        by_cases hki : k = i
+        · subst hki
+          refine ⟨_, tl', List.getElem?_set_self hilt, ?_, h1, h2⟩
+          simp [h2]
+        · exact ⟨lk, tlk, by rw [List.getElem?_set_ne (fun e => hki e.symm)]; exact hlk, hpk, hk1, hk2⟩
+      · rw [hh] at hk; cases hk
+  · have hp := ccall_step_plain i _ s' l l' (fun tl e => hpc ⟨tl, e⟩) hs
+    rw [hp.1] at hk
+    obtain ⟨lk, tlk, hlk, hpk, hk1, hk2⟩ := h k hk
+    by_cases hki : k = i
+    · subst hki
+      rw [hl] at hlk; cases hlk
+      exact absurd ⟨tlk, hpk⟩ hpc
+    · exact ⟨lk, tlk, by rw [List.getElem?_set_ne (fun e => hki e.symm)]; exact hlk, hpk, hk1, hk2⟩
+
+theorem ccall_Hold_init (fo fc io : Bool) (jobs : List Job) : ccall_Hold (init fo fc io jobs) := by
+  intro h hh
+  simp [init] at hh
+
+theorem ccall_Hold_run (c : Config Shared Local) (h : ccall_Hold c) (sched : List Nat) :
+    ccall_Hold (run sys c sched) :=
+  ccall_run_inv sys ccall_Hold (fun c i l s' l' h hl hs => ccall_Hold_step c i l s' l' h hl hs) c h sched
+
+/-- inside the transition a thread steps whenever the transition does -/
+theorem ccall_step_trans_isSome (i : Nat) (s : Shared) (l : Local) (tl : Trans.Local) (hpc : l.pc = .trans tl)
+    (h : tl.pc = .done ∨ (Trans.step i s.t tl).isSome = true) : (step i s l).isSome = true := by
+  obtain ⟨job, pc, sw⟩ := l
+  simp only at hpc; subst hpc
+  by_cases hd : tl.pc = .done
+  · simp [step, hd]
+  · rcases h with h | h
+    · exact absurd h hd
+    · cases ht : Trans.step i s.t tl with
+      | none => rw [ht] at h; cases h
+      | some x =>
+        simp only [step, ht]
+        split <;> rfl
+
+/-- a thread that cannot step has returned or waits for transitionMu -/
+theorem ccall_step_none (i : Nat) (s : Shared) (l : Local) (h : step i s l = none) :
+    l.pc = .done ∨ ∃ tl k, l.pc = .trans tl ∧ s.t.holder = some k := by
+  by_cases hpc : ∃ tl, l.pc = .trans tl
+  · obtain ⟨tl, hpc⟩ := hpc
+    refine Or.inr ⟨tl, ?_⟩
+    cases hh : s.t.holder with
+    | some k => exact ⟨k, hpc, rfl⟩
+    | none =>
+      exfalso
+      have : (step i s l).isSome = true := by
+        apply ccall_step_trans_isSome i s l tl hpc
+        by_cases hd : tl.pc = .done
+        · exact Or.inl hd
+        · by_cases h1 : tl.pc = .start
+          · exact Or.inr (ccall_tstep_start_isSome i s.t tl h1 hh)
+          · exact Or.inr (ccall_tstep_mid_isSome i s.t tl h1 hd)
+      rw [h] at this; cases this
+  · obtain ⟨job, pc, sw⟩ := l
+    cases pc <;> simp only [step] at h
+    all_goals (try split at h)
+    all_goals (try split at h)
+    all_goals (try split at h)
+    all_goals (try simp only [reduceCtorEq] at h)
+    all_goals (try (exact Or.inl rfl))
+    all_goals exact absurd ⟨_, rfl⟩ hpc
+
+/-- the holder of transitionMu can step -/
+theorem ccall_step_mid_isSome (i : Nat) (s : Shared) (l : Local) (tl : Trans.Local) (hpc : l.pc = .trans tl)
+    (h1 : tl.pc ≠ .start) (h2 : tl.pc ≠ .done) : (step i s l).isSome = true :=
+  ccall_step_trans_isSome i s l tl hpc (Or.inr (ccall_tstep_mid_isSome i s.t tl h1 h2))
+
+theorem ccall_no_deadlock (c : Config Shared Local) (h : ccall_Hold c) (hnd : allDone c = false) :
+    ∃ i l, c.locals[i]? = some l ∧ (step i c.shared l).isSome = true := by
+  simp only [allDone, List.all_eq_false] at hnd
+  obtain ⟨l, hm, hpc⟩ := hnd
+  obtain ⟨i, hl⟩ := List.mem_iff_getElem?.mp hm
+  cases hs : step i c.shared l with
+  | some x => exact ⟨i, l, hl, by rw [hs]; rfl⟩
+  | none =>
+    rcases ccall_step_none i _ l hs with hd | ⟨tl, k, _, hk⟩
+    · simp [hd] at hpc
+    · obtain ⟨lk, tlk, hlk, hpk, hk1, hk2⟩ := h k hk
+      exact ⟨k, lk, hlk, ccall_step_mid_isSome k _ lk tlk hpk hk1 hk2⟩
+
+/-! ### nothing can close the circuit: the flag is monotone -/
+
+def ccall_scOf : Job → Script
+  | .call sc => sc
+  | _ => {}
+
+/-- entering a transition: a fresh opening, or a fresh closing attempt with the call's ShouldClose answer -/
+theorem ccall_step_enter (i : Nat) (s s' : Shared) (l l' : Local) (hpc : ∀ tl, l.pc ≠ .trans tl)
+    (h : step i s l = some (s', l')) (tl2 : Trans.Local) (h2 : l'.pc = .trans tl2) :
+    tl2 = { job := .open } ∨ tl2 = { job := .close false (ccall_scOf l.job).shouldClose } := by
+  obtain ⟨job, pc, sw⟩ := l
+  cases pc <;> cases job <;> simp only [step] at h
+  all_goals (try split at h)
+  all_goals (try split at h)
+  all_goals (try simp only [Option.some.injEq, Prod.mk.injEq, reduceCtorEq] at h)
+  all_goals (try (obtain ⟨rfl, rfl⟩ := h))
+  all_goals (try simp only [reduceCtorEq, Pc.trans.injEq] at h2)
+  all_goals (try subst h2)
+  all_goals (try (exact absurd rfl (hpc _)))
+  all_goals simp [ccall_scOf]
+
+def ccall_JobOK : Job → Prop
+  | .call sc => sc.shouldClose = false
+  | .open => True
+  | .close => False
+
+def ccall_NCThr (l : Local) : Prop :=
+  ccall_JobOK l.job ∧
+  ∀ tl, l.pc = .trans tl → (tl.job = .open ∨ (tl.job = .close false false ∧ tl.pc ≠ .notify ∧ tl.pc ≠ .store))
+
+theorem ccall_JobOK_sc (j : Job) (h : ccall_JobOK j) : (ccall_scOf j).shouldClose = false := by
+  cases j <;> simp_all [ccall_JobOK, ccall_scOf]
+
+theorem ccall_NCThr_step (i : Nat) (s s' : Shared) (l l' : Local) (h : ccall_NCThr l)
+    (hs : step i s l = some (s', l')) : ccall_NCThr l' ∧ (s.t.isOpen = true → s'.t.isOpen = true) := by
+  have hjob := (ccall_step_static i s s' l l' hs).1
+  by_cases hpc : ∃ tl, l.pc = .trans tl
+  · obtain ⟨tl, hpc⟩ := hpc
+    rcases ccall_step_trans i s s' l l' tl hpc hs with ⟨_, rfl, rfl⟩ | ⟨_, t', tl', ht, rfl, rfl⟩
+    · exact ⟨⟨h.1, fun tl2 h2 => by simp at h2⟩, id⟩
+    · have hj := (ccall_tstep_static _ _ _ _ _ ht).1
+      have hio := ccall_tstep_isOpen _ _ _ _ _ ht
+      have key : (tl'.job = .open ∨ (tl'.job = .close false false ∧ tl'.pc ≠ .notify ∧ tl'.pc ≠ .store)) ∧
+          (s.t.isOpen = true → t'.isOpen = true) := by
+        rcases h.2 tl hpc with ho | ⟨hc, h1, h2⟩
+        · refine ⟨Or.inl (hj.trans ho), fun hopen => ?_⟩
+          rcases hio with e | ⟨_, _, e⟩ | ⟨_, f, a, e⟩
+          · rw [e]; exact hopen
+          · exact e
+          · rw [ho] at e; cases e
+        · refine ⟨Or.inr ⟨hj.trans hc, ccall_tstep_noclose _ _ _ _ _ ht hc h1 h2⟩, fun hopen => ?_⟩
+          rcases hio with e | ⟨e, _⟩ | ⟨e, _⟩
+          · rw [e]; exact hopen
+          · exact absurd e h2
+          · exact absurd e h2
+      refine ⟨⟨h.1, fun tl2 h2 => ?_⟩, key.2⟩
+      simp only at h2
+      split at h2
+      · cases h2
+      · cases h2; exact key.1
+  · have hp := ccall_step_plain i s s' l l' (fun tl e => hpc ⟨tl, e⟩) hs
+    refine ⟨⟨hjob ▸ h.1, fun tl2 h2 => ?_⟩, fun hopen => by rw [hp.1]; exact hopen⟩
+    rcases ccall_step_enter i s s' l l' (fun tl e => hpc ⟨tl, e⟩) hs tl2 h2 with e | e
+    · exact Or.inl (by rw [e])
+    · rw [ccall_JobOK_sc _ h.1] at e
+      exact Or.inr (by rw [e]; simp)
+
+def ccall_NC (c : Config Shared Local) : Prop := ∀ (j : Nat) (l : Local), c.locals[j]? = some l → ccall_NCThr l
+
+/-- nothing can close, and (if `b`) the circuit is open -/
+def ccall_NCO (b : Bool) (c : Config Shared Local) : Prop := ccall_NC c ∧ (b = true → c.shared.t.isOpen = true)
+
+theorem ccall_NCO_step (b : Bool) (c : Config Shared Local) (i : Nat) (l : Local) (s' : Shared) (l' : Local)
+    (h : ccall_NCO b c) (hl : c.locals[i]? = some l) (hs : step i c.shared l = some (s', l')) :
+    ccall_NCO b { shared := s', locals := c.locals.set i l' } := by
+  have hi := ccall_NCThr_step i _ _ _ _ (h.1 i l hl) hs
+  exact ⟨ccall_set_forall (fun _ l => ccall_NCThr l) (fun _ l => ccall_NCThr l) c.locals i l' h.1 hi.1
+    (fun _ _ _ hj => hj), fun hb => hi.2 (h.2 hb)⟩
+
+theorem ccall_NCO_run (b : Bool) (c : Config Shared Local) (h : ccall_NCO b c) (sched : List Nat) :
+    ccall_NCO b (run sys c sched) :=
+  ccall_run_inv sys (ccall_NCO b) (fun c i l s' l' h hl hs => ccall_NCO_step b c i l s' l' h hl hs) c h sched
+
+theorem ccall_NC_init (fo fc io : Bool) (jobs : List Job) (hnc : neverCloses jobs = true) :
+    ccall_NC (init fo fc io jobs) := by
+  intro j l hl
+  simp only [init, List.getElem?_map] at hl
+  cases hj : jobs[j]? with
+  | none => rw [hj] at hl; cases hl
+  | some job =>
+    rw [hj] at hl
+    simp only [Option.map_some, Option.some.injEq] at hl
+    subst hl
+    have hm : job ∈ jobs := List.mem_iff_getElem?.mpr ⟨j, hj⟩
+    simp only [neverCloses, List.all_eq_true] at hnc
+    have := hnc job hm
+    cases job <;> simp_all [ccall_NCThr, ccall_JobOK, startPc]
+
+theorem ccall_NC_run (c : Config Shared Local) (h : ccall_NC c) (sched : List Nat) : ccall_NC (run sys c sched) :=
+  (ccall_NCO_run false c ⟨h, fun e => by cases e⟩ sched).1
+
+/-- once open, open for good -/
+theorem ccall_NC_mono (c : Config Shared Local) (h : ccall_NC c) (ho : c.shared.t.isOpen = true) (sched : List Nat) :
+    (run sys c sched).shared.t.isOpen = true :=
+  (ccall_NCO_run true c ⟨h, fun _ => ho⟩ sched).2 rfl
+
+/-! ### a returned OpenCircuit has opened the circuit -/
+
+def ccall_IsOpen (s : Shared) : Prop := s.t.isOpen = true ∨ s.t.forceOpen = true
+
+def ccall_OTThr (s : Shared) (l : Local) : Prop :=
+  l.job = .open →
+    (l.pc = .done ∧ ccall_IsOpen s) ∨
+    ∃ tl, l.pc = .trans tl ∧ tl.job = .open ∧ tl.pc ≠ .guard2 ∧ tl.pc ≠ .decide ∧
+      ((tl.pc = .unlock ∨ tl.pc = .done) → ccall_IsOpen s)
+
+theorem ccall_step_not_done (i : Nat) (s s' : Shared) (l l' : Local) (hs : step i s l = some (s', l')) :
+    l.pc ≠ .done := by
+  intro hd
+  obtain ⟨job, pc, sw⟩ := l
+  simp only at hd; subst hd
+  simp [step] at hs
+
+theorem ccall_OTThr_step (i : Nat) (s s' : Shared) (l l' : Local) (hfc : s.t.forcedClosed = false)
+    (h : ccall_OTThr s l) (hs : step i s l = some (s', l')) : ccall_OTThr s' l' := by
+  have hjob := (ccall_step_static i s s' l l' hs).1
+  intro hj'
+  rcases h (hjob ▸ hj') with ⟨hd, _⟩ | ⟨tl, hpc, hj, h1, h2, h3⟩
+  · exact absurd hd (ccall_step_not_done i s s' l l' hs)
+  · rcases ccall_step_trans i s s' l l' tl hpc hs with ⟨hd, rfl, rfl⟩ | ⟨_, t', tl', ht, rfl, rfl⟩
+    · exact Or.inl ⟨rfl, h3 (Or.inr hd)⟩
+    · have hj2 := (ccall_tstep_static _ _ _ _ _ ht).1
+      obtain ⟨k1, k2, k3⟩ := ccall_tstep_opening _ _ _ _ _ ht hj hfc h1 h2 (fun e => h3 (Or.inl e))
+      by_cases hd : tl'.pc = .done
+      · refine Or.inl ⟨by simp [hd], k3 (Or.inr hd)⟩
+      · refine Or.inr ⟨tl', by simp [hd], hj2.trans hj, k1, k2, k3⟩
+
+def ccall_OT (c : Config Shared Local) : Prop :=
+  c.shared.t.forcedClosed = false ∧ ccall_NC c ∧ ∀ (j : Nat) (l : Local), c.locals[j]? = some l → ccall_OTThr c.shared l
+
+theorem ccall_OT_step (c : Config Shared Local) (i : Nat) (l : Local) (s' : Shared) (l' : Local)
+    (h : ccall_OT c) (hl : c.locals[i]? = some l) (hs : step i c.shared l = some (s', l')) :
+    ccall_OT { shared := s', locals := c.locals.set i l' } := by
+  obtain ⟨h1, h2, h3⟩ := h
+  have hst := ccall_step_static i _ _ _ _ hs
+  have hnc := ccall_NCThr_step i _ _ _ _ (h2 i l hl) hs
+  have hmono : ccall_IsOpen c.shared → ccall_IsOpen s' := by
+    intro ho
+    rcases ho with ho | ho
+    · exact Or.inl (hnc.2 ho)
+    · exact Or.inr (hst.2.1.trans ho)
+  refine ⟨hst.2.2.trans h1, (ccall_NCO_step false c i l s' l' ⟨h2, fun e => by cases e⟩ hl hs).1, ?_⟩
+  refine ccall_set_forall (fun _ l => ccall_OTThr c.shared l) (fun _ l => ccall_OTThr s' l) c.locals i l' h3
+    (ccall_OTThr_step i _ _ _ _ h1 (h3 i l hl) hs) ?_
+  intro j lj _ hj hjob
+  rcases hj hjob with ⟨hd, ho⟩ | ⟨tl, hpc, hjt, k1, k2, k3⟩
+  · exact Or.inl ⟨hd, hmono ho⟩
+  · exact Or.inr ⟨tl, hpc, hjt, k1, k2, fun e => hmono (k3 e)⟩
+
+theorem ccall_OT_init (fo io : Bool) (jobs : List Job) (hnc : neverCloses jobs = true) :
+    ccall_OT (init fo false io jobs) := by
+  refine ⟨rfl, ccall_NC_init fo false io jobs hnc, ?_⟩
+  intro j l hl
+  simp only [init, List.getElem?_map] at hl
+  cases hj : jobs[j]? with
+  | none => rw [hj] at hl; cases hl
+  | some job =>
+    rw [hj] at hl
+    simp only [Option.map_some, Option.some.injEq] at hl
+    subst hl
+    intro hjob
+    simp only at hjob; subst hjob
+    exact Or.inr ⟨{ job := .open }, rfl, rfl, by simp, by simp, by simp⟩
+
+theorem ccall_OT_run (c : Config Shared Local) (h : ccall_OT c) (sched : List Nat) : ccall_OT (run sys c sched) :=
+  ccall_run_inv sys ccall_OT (fun c i l s' l' h hl hs => ccall_OT_step c i l s' l' h hl hs) c h sched
+
+/-! ### threads that can only shed -/
+
+theorem ccall_step_events_mono (i : Nat) (s s' : Shared) (l l' : Local) (hs : step i s l = some (s', l'))
+    (e : Nat × Outcome) (he : e ∈ s.events) : e ∈ s'.events := by
+  rcases ccall_step_events i _ _ _ _ hs with he' | ⟨_, he', _⟩ | ⟨_, he', _⟩ <;> rw [he'] <;> simp [he]
+
+theorem ccall_step_events_other (i : Nat) (s s' : Shared) (l l' : Local) (hs : step i s l = some (s', l'))
+    (j : Nat) (hne : j ≠ i) (o : Outcome) (ho : (j, o) ∈ s'.events) : (j, o) ∈ s.events := by
+  rcases ccall_step_events i _ _ _ _ hs with he' | ⟨_, he', _⟩ | ⟨_, he', _⟩ <;> rw [he'] at ho
+  · exact ho
+  · simp only [List.mem_append, List.mem_singleton, Prod.mk.injEq] at ho
+    rcases ho with ho | ⟨e, _⟩
+    · exact ho
+    · exact absurd e hne
+  · simp only [List.mem_append, List.mem_singleton, Prod.mk.injEq] at ho
+    rcases ho with ho | ⟨e, _⟩
+    · exact ho
+    · exact absurd e hne
+
+/-- the program points of a call on its way to the refusal (`fo`: the ForceOpen flag) -/
+def ccall_shedPc (fo : Bool) : Pc → Prop
+  | .aFO | .gFO | .askAllow | .shedNow | .done => True
+  | .aFC | .aFlag => fo = false
+  | _ => False
+
+/-- with the circuit open, not forced closed, and a closer that does not admit it, a call stays on its way to the
+    refusal -/
+theorem ccall_shed_step (i : Nat) (s s' : Shared) (l l' : Local) (sc : Script) (hs : step i s l = some (s', l'))
+    (hj : l.job = .call sc) (ha : sc.allow = false) (hfc : s.t.forcedClosed = false) (ho : ccall_IsOpen s)
+    (hp : ccall_shedPc s.t.forceOpen l.pc) :
+    ccall_shedPc s'.t.forceOpen l'.pc ∧ s'.t = s.t ∧ (l'.pc = .done → (i, Outcome.shed) ∈ s'.events) := by
+  obtain ⟨job, pc, sw⟩ := l
+  simp only at hj; subst hj
+  cases pc <;> simp only [ccall_shedPc] at hp <;> simp only [step] at hs
+  all_goals (try split at hs)
+  all_goals (try split at hs)
+  all_goals (try simp only [Option.some.injEq, Prod.mk.injEq, reduceCtorEq] at hs)
+  all_goals (try (obtain ⟨rfl, rfl⟩ := hs))
+  all_goals simp_all [ccall_shedPc, ccall_IsOpen]
+
+theorem ccall_shed_step_noran (i : Nat) (s s' : Shared) (l l' : Local) (hs : step i s l = some (s', l'))
+    (fo : Bool) (hp : ccall_shedPc fo l'.pc) (j : Nat) (hn : (j, Outcome.ran) ∉ s.events) :
+    (j, Outcome.ran) ∉ s'.events := by
+  rcases ccall_step_events i _ _ _ _ hs with he' | ⟨_, he', _⟩ | ⟨_, he', hpc, _⟩
+  · rw [he']; exact hn
+  · rw [he']; simp [hn]
+  · rw [hpc] at hp; simp [ccall_shedPc] at hp
+
+theorem ccall_IsOpen_step (i : Nat) (s s' : Shared) (l l' : Local) (h : ccall_NCThr l)
+    (hs : step i s l = some (s', l')) (ho : ccall_IsOpen s) : ccall_IsOpen s' := by
+  rcases ho with ho | ho
+  · exact Or.inl ((ccall_NCThr_step i _ _ _ _ h hs).2 ho)
+  · exact Or.inr ((ccall_step_static i _ _ _ _ hs).2.1.trans ho)
+
+/-- thread `i` is a call that can only be shed -/
+def ccall_Shed (i : Nat) (sc : Script) (c : Config Shared Local) : Prop :=
+  sc.allow = false ∧ c.shared.t.forcedClosed = false ∧ ccall_NC c ∧ ccall_IsOpen c.shared ∧
+  (i, Outcome.ran) ∉ c.shared.events ∧
+  ∃ l, c.locals[i]? = some l ∧ l.job = .call sc ∧ ccall_shedPc c.shared.t.forceOpen l.pc ∧
+    (l.pc = .done → (i, Outcome.shed) ∈ c.shared.events)
+
+theorem ccall_Shed_step (i : Nat) (sc : Script) (c : Config Shared Local) (k : Nat) (l : Local) (s' : Shared)
+    (l' : Local) (h : ccall_Shed i sc c) (hl : c.locals[k]? = some l) (hs : step k c.shared l = some (s', l')) :
+    ccall_Shed i sc { shared := s', locals := c.locals.set k l' } := by
+  obtain ⟨ha, hfc, hnc, ho, hnr, li, hli, hji, hpi, hdi⟩ := h
+  have hst := ccall_step_static k _ _ _ _ hs
+  have hklt := ccall_lt_of_getElem? hl
+  refine ⟨ha, hst.2.2.trans hfc, (ccall_NCO_step false c k l s' l' ⟨hnc, fun e => by cases e⟩ hl hs).1,
+    ccall_IsOpen_step k _ _ _ _ (hnc k l hl) hs ho, ?_, ?_⟩
+  · by_cases hki : i = k
+    · subst hki
+      rw [hl] at hli; cases hli
+      have := ccall_shed_step i _ _ _ _ sc hs hji ha hfc ho hpi
+      exact ccall_shed_step_noran i _ _ _ _ hs _ this.1 i hnr
+    · intro hr
+      exact hnr (ccall_step_events_other k _ _ _ _ hs i hki _ hr)
+  · by_cases hki : i = k
+    · subst hki
+      rw [hl] at hli; cases hli
+      have := ccall_shed_step i _ _ _ _ sc hs hji ha hfc ho hpi
+      exact ⟨l', List.getElem?_set_self hklt, hst.1.trans hji, this.1, this.2.2⟩
+    · refine ⟨li, by rw [List.getElem?_set_ne (fun e => hki e.symm)]; exact hli, hji, ?_, fun hd => ?_⟩
+      · simp only [hst.2.1]; exact hpi
+      · exact ccall_step_events_mono k _ _ _ _ hs _ (hdi hd)
+
+theorem ccall_Shed_run (i : Nat) (sc : Script) (c : Config Shared Local) (h : ccall_Shed i sc c) (sched : List Nat) :
+    ccall_Shed i sc (run sys c sched) :=
+  ccall_run_inv sys (ccall_Shed i sc) (fun c k l s' l' h hl hs => ccall_Shed_step i sc c k l s' l' h hl hs) c h sched
+
+/-! ### an open circuit whose closer admits nobody -/
+
+def ccall_AllShedThr (fo : Bool) (l : Local) : Prop :=
+  match l.job with
+  | .call sc => sc.allow = false ∧ ccall_shedPc fo l.pc
+  | .open => l.pc = .done ∨ ∃ tl, l.pc = .trans tl ∧ tl.job = .open
+  | .close => False
+
+def ccall_AllShed (c : Config Shared Local) : Prop :=
+  c.shared.t.forcedClosed = false ∧ c.shared.t.isOpen = true ∧ (∀ i, (i, Outcome.ran) ∉ c.shared.events) ∧
+  ∀ (j : Nat) (l : Local), c.locals[j]? = some l → ccall_AllShedThr c.shared.t.forceOpen l
+
+theorem ccall_AllShedThr_step (i : Nat) (s s' : Shared) (l l' : Local) (hfc : s.t.forcedClosed = false)
+    (hopen : s.t.isOpen = true) (hnr : ∀ j, (j, Outcome.ran) ∉ s.events) (h : ccall_AllShedThr s.t.forceOpen l)
+    (hs : step i s l = some (s', l')) :
+    ccall_AllShedThr s'.t.forceOpen l' ∧ s'.t.isOpen = true ∧ ∀ j, (j, Outcome.ran) ∉ s'.events := by
+  have hst := ccall_step_static i _ _ _ _ hs
+  obtain ⟨job, pc, sw⟩ := l
+  obtain ⟨job', pc', sw'⟩ := l'
+  simp only at hst
+  obtain ⟨hjob, _, _⟩ := hst
+  subst hjob
+  cases job' with
+  | call sc =>
+    simp only [ccall_AllShedThr] at h ⊢
+    have := ccall_shed_step i _ _ _ _ sc hs rfl h.1 hfc (Or.inl hopen) h.2
+    exact ⟨⟨h.1, this.1⟩, by rw [this.2.1]; exact hopen,
+      fun j => ccall_shed_step_noran i _ _ _ _ hs _ this.1 j (hnr j)⟩
+  | «open» =>
+    simp only [ccall_AllShedThr] at h ⊢
+    rcases h with hd | ⟨tl, hpc, hj⟩
+    · exact absurd hd (ccall_step_not_done i _ _ _ _ hs)
+    · rcases ccall_step_trans i s s' _ _ tl hpc hs with ⟨_, rfl, e⟩ | ⟨_, t', tl', ht, rfl, e⟩
+      · simp only [Local.mk.injEq] at e
+        exact ⟨Or.inl e.2.1, hopen, hnr⟩
+      · simp only [Local.mk.injEq] at e
+        have hj2 := (ccall_tstep_static _ _ _ _ _ ht).1
+        refine ⟨?_, ?_, hnr⟩
+        · rw [e.2.1]
+          by_cases hd : tl'.pc = .done
+          · simp [hd]
+          · exact Or.inr ⟨tl', by simp [hd], hj2.trans hj⟩
+        · rcases ccall_tstep_isOpen _ _ _ _ _ ht with e | ⟨_, _, e⟩ | ⟨_, f, a, e⟩
+          · exact e.trans hopen
+          · exact e
+          · rw [hj] at e; cases e
+  | close => exact absurd h (by simp [ccall_AllShedThr])
+
+theorem ccall_AllShed_step (c : Config Shared Local) (i : Nat) (l : Local) (s' : Shared) (l' : Local)
+    (h : ccall_AllShed c) (hl : c.locals[i]? = some l) (hs : step i c.shared l = some (s', l')) :
+    ccall_AllShed { shared := s', locals := c.locals.set i l' } := by
+  obtain ⟨h1, h2, h3, h4⟩ := h
+  have hst := ccall_step_static i _ _ _ _ hs
+  have hi := ccall_AllShedThr_step i _ _ _ _ h1 h2 h3 (h4 i l hl) hs
+  exact ⟨hst.2.2.trans h1, hi.2.1, hi.2.2,
+    ccall_set_forall (fun _ l => ccall_AllShedThr c.shared.t.forceOpen l) (fun _ l => ccall_AllShedThr s'.t.forceOpen l)
+      c.locals i l' h4 hi.1 (fun _ _ _ hj => by rw [hst.2.1]; exact hj)⟩
+
+theorem ccall_AllShed_init (fo : Bool) (jobs : List Job) (hadm : closerAdmitsNone jobs = true)
+    (hnc : jobs.all (· != .close) = true) : ccall_AllShed (init fo false true jobs) := by
+  refine ⟨rfl, rfl, by simp [init], ?_⟩
+  intro j l hl
+  simp only [init, List.getElem?_map] at hl
+  cases hj : jobs[j]? with
+  | none => rw [hj] at hl; cases hl
+  | some job =>
+    rw [hj] at hl
+    simp only [Option.map_some, Option.some.injEq] at hl
+    subst hl
+    have hm : job ∈ jobs := List.mem_iff_getElem?.mpr ⟨j, hj⟩
+    simp only [closerAdmitsNone, List.all_eq_true] at hadm hnc
+    have h1 := hadm job hm
+    have h2 := hnc job hm
+    cases job <;> simp_all [ccall_AllShedThr, startPc, ccall_shedPc]
+
+theorem ccall_AllShed_run (c : Config Shared Local) (h : ccall_AllShed c) (sched : List Nat) :
+    ccall_AllShed (run sys c sched) :=
+  ccall_run_inv sys ccall_AllShed (fun c i l s' l' h hl hs => ccall_AllShed_step c i l s' l' h hl hs) c h sched
+
+/-! ### a call that starts while the circuit is open -/
+
+theorem ccall_Shed_start (fo : Bool) (jobs : List Job) (c1 : Config Shared Local) (i : Nat) (l : Local) (sc : Script)
+    (hinv : ccall_Inv fo c1) (hfc : c1.shared.t.forcedClosed = false) (hnc : ccall_NC c1)
+    (hjobs : c1.locals.map (·.job) = jobs) (hadm : closerAdmitsNone jobs = true)
+    (ho : c1.shared.t.isOpen = true ∨ fo = true) (hl : c1.locals[i]? = some l) (hns : notStarted l = true)
+    (hj : l.job = .call sc) : ccall_Shed i sc c1 := by
+  have hpc : l.pc = .aFO := by
+    have : l.pc = startPc l.job := by simpa [notStarted] using hns
+    rw [this, hj]; rfl
+  have hthr := hinv.2.2.2 i l hl
+  obtain ⟨job, pc, sw⟩ := l
+  simp only at hj hpc; subst hj; subst hpc
+  have hm : Job.call sc ∈ jobs := List.mem_iff_getElem?.mpr ⟨i, ccall_job_of hjobs hl⟩
+  simp only [closerAdmitsNone, List.all_eq_true] at hadm
+  have ha := hadm _ hm
+  refine ⟨by simpa using ha, hfc, hnc, ?_, hthr.2 _, _, hl, rfl, by simp [ccall_shedPc], fun hd => by cases hd⟩
+  rcases ho with ho | ho
+  · exact Or.inl ho
+  · exact Or.inr (hinv.1.trans ho)
+
+/-- OpenCircuit / CloseCircuit threads never record an outcome -/
+theorem ccall_noncall_noev (fo : Bool) (c1 : Config Shared Local) (hinv : ccall_Inv fo c1) (i : Nat) (l : Local)
+    (hl : c1.locals[i]? = some l) (hj : ∀ sc, l.job ≠ .call sc) (s2 : List Nat) (o : Outcome) :
+    (i, o) ∉ (run sys c1 s2).shared.events := by
+  intro ho
+  have hinv2 := ccall_Inv_run fo c1 hinv s2
+  obtain ⟨l2, hl2, hthr⟩ := ccall_Inv_thread fo _ hinv2 i o ho
+  obtain ⟨sc, hsc⟩ := ccall_Thr_ev fo i _ l2 hthr o ho
+  have h1 := ccall_job_of (ccall_run_static c1 s2).2.2 hl2
+  have h2 := ccall_job_of (rfl : c1.locals.map (·.job) = _) hl
+  rw [h2, hsc] at h1
+  exact hj sc (Option.some.inj h1)
+
+/-! ### every reachable configuration -/
+
+theorem ccall_reach (fo fc io : Bool) (jobs : List Job) (sched : List Nat) :
+    ccall_Inv fo (run sys (init fo fc io jobs) sched) ∧
+    (run sys (init fo fc io jobs) sched).locals.map (·.job) = jobs :=
+  ⟨ccall_Inv_run fo _ (ccall_Inv_init fo fc io jobs) sched,
+   (ccall_run_static (init fo fc io jobs) sched).2.2.trans (ccall_init_jobs fo fc io jobs)⟩
+
+/-- a recorded invocation: the thread is a call, not vetoed, admitted by its own reading; and nobody reads "closed"
+    under ForceOpen -/
+theorem ccall_Inv_ran (fo : Bool) (jobs : List Job) (c : Config Shared Local) (hinv : ccall_Inv fo c)
+    (hjobs : c.locals.map (·.job) = jobs) (i : Nat) (hr : (i, Outcome.ran) ∈ c.shared.events) :
+    ∃ sc l, jobs[i]? = some (.call sc) ∧ c.locals[i]? = some l ∧ sc.prevent = false ∧
+      (l.sawOpen = some false ∨ (l.sawOpen = some true ∧ sc.allow = true ∧ fo = false)) ∧
+      (l.sawOpen = some false → fo = false) := by
+  obtain ⟨l, hl, hthr⟩ := ccall_Inv_thread fo _ hinv i _ hr
+  obtain ⟨sc, hj, hp, hadm⟩ := ccall_Thr_ran fo i _ l hthr hinv.2.1 hr
+  exact ⟨sc, l, by rw [ccall_job_of hjobs hl, hj], hl, hp, hadm, hthr.1⟩
+
+/-- each call decides exactly once -/
+theorem ccall_Inv_outcomes (fo : Bool) (jobs : List Job) (c : Config Shared Local) (hinv : ccall_Inv fo c)
+    (hjobs : c.locals.map (·.job) = jobs) :
+    (c.shared.events.map (·.1)).Nodup ∧
+    (∀ e ∈ c.shared.events, ∃ sc, jobs[e.1]? = some (.call sc)) ∧
+    (∀ i sc l, jobs[i]? = some (.call sc) → c.locals[i]? = some l → l.pc = .done → (outcomeOf c i).isSome) := by
+  refine ⟨hinv.2.1, ?_, ?_⟩
+  · intro e he
+    obtain ⟨l, hl, hthr⟩ := ccall_Inv_thread fo _ hinv e.1 e.2 he
+    obtain ⟨sc, hj⟩ := ccall_Thr_ev fo _ _ l hthr e.2 he
+    exact ⟨sc, by rw [ccall_job_of hjobs hl, hj]⟩
+  · intro i sc l hj hl hpc
+    have hj' : l.job = .call sc := by
+      have := ccall_job_of hjobs hl
+      rw [hj] at this; exact (Option.some.inj this).symm
+    obtain ⟨o, ho⟩ := ccall_Thr_done fo i _ l (hinv.2.2.2 i l hl) sc hj' hpc
+    exact ccall_outcomeOf_isSome _ i o ho
+
+/-- a returned OpenCircuit thread (no ForcedClosed, nothing that closes) has left the circuit open -/
+theorem ccall_OT_returned (fo : Bool) (jobs : List Job) (sched : List Nat) (k : Nat) (l : Local)
+    (hnc : neverCloses jobs = true) (hj : jobs[k]? = some .open)
+    (hl : (run sys (init fo false false jobs) sched).locals[k]? = some l) (hpc : l.pc = .done) :
+    (run sys (init fo false false jobs) sched).shared.t.isOpen = true ∨ fo = true := by
+  have hot := ccall_OT_run _ (ccall_OT_init fo false jobs hnc) sched
+  have hst := ccall_run_static (init fo false false jobs) sched
+  have hjob : l.job = .open := by
+    have := ccall_job_of (hst.2.2.trans (ccall_init_jobs fo false false jobs)) hl
+    rw [hj] at this; exact (Option.some.inj this).symm
+  rcases hot.2.2 k l hl hjob with ⟨_, ho⟩ | ⟨tl, hpc', _⟩
+  · rcases ho with ho | ho
+    · exact Or.inl ho
+    · exact Or.inr (hst.1.symm.trans ho)
+  · rw [hpc] at hpc'; cases hpc'
+
+/-- a thread that has not started when the circuit is open (closer admits nobody, nothing closes) is shed -/
+theorem ccall_late_shed (fo : Bool) (jobs : List Job) (s1 s2 : List Nat) (i : Nat) (l : Local)
+    (hadm : closerAdmitsNone jobs = true) (hnc : neverCloses jobs = true)
+    (hopen : (run sys (init fo false false jobs) s1).shared.t.isOpen = true ∨ fo = true)
+    (hl : (run sys (init fo false false jobs) s1).locals[i]? = some l) (hns : notStarted l = true) :
+    (i, Outcome.ran) ∉ (run sys (run sys (init fo false false jobs) s1) s2).shared.events ∧
+    (∀ l2, (run sys (run sys (init fo false false jobs) s1) s2).locals[i]? = some l2 → l2.pc = .done →
+      (∃ sc, l.job = .call sc) → (i, Outcome.shed) ∈ (run sys (run sys (init fo false false jobs) s1) s2).shared.events) := by
+  have hr := ccall_reach fo false false jobs s1
+  have hst1 := ccall_run_static (init fo false false jobs) s1
+  by_cases hcall : ∃ sc, l.job = .call sc
+  · obtain ⟨sc, hj⟩ := hcall
+    obtain ⟨_, _, _, _, hnr, l2', hl2', _, _, hd⟩ := ccall_Shed_run i sc _ (ccall_Shed_start fo jobs _ i l sc hr.1
+      hst1.2.1 (ccall_NC_run _ (ccall_NC_init fo false false jobs hnc) s1) hr.2 hadm hopen hl hns hj) s2
+    refine ⟨hnr, fun l2 hl2 hpc _ => ?_⟩
+    rw [hl2'] at hl2; cases hl2; exact hd hpc
+  · exact ⟨ccall_noncall_noev fo _ hr.1 i l hl (fun sc e => hcall ⟨sc, e⟩) s2 _, fun _ _ _ h => absurd h hcall⟩
+
 end CM.Conc.Call
